@@ -290,13 +290,15 @@ Qed.
 (* what update_subtree does inside its domain: no exception, a well-formed result made of
    remaining old members (whose parent links only shrink or point to inserted nodes) and of
    inserted nodes Bs: new objects, closed under parents, free of cycles *)
-Lemma update_subtree_facts : forall h g old new, WF h g -> guard_b (h, g) (OUpdSub old new) = true ->
+Lemma update_subtree_facts_frame : forall h g old new, WF h g -> guard_b (h, g) (OUpdSub old new) = true ->
   exists h4 g3 (Bs : ref -> Prop), update_subtree h g old new = Ok (h4, g3) /\ WF h4 g3 /\
     (forall x, In x g3 -> In x g \/ Bs x) /\
     (forall x, Bs x -> length h <= x) /\
     (forall x p, Bs x -> In p (pars h4 x) -> Bs p) /\
     (forall x, Bs x -> ~ on_cycle h4 x) /\
-    (forall x, In x g -> In x g3 -> forall p, In p (pars h4 x) -> Bs p \/ In p (pars h x)).
+    (forall x, In x g -> In x g3 -> forall p, In p (pars h4 x) -> Bs p \/ In p (pars h x)) /\
+    (* frame: objects that are not members of g are untouched, new objects are appended *)
+    (length h <= length h4 /\ forall r, r < length h -> ~ In r g -> get h4 r = get h r).
 Proof.
   intros h g old new W G. simpl in G. repeat rewrite andb_true_iff in G.
   destruct G as [[[G1 G2] G3] G4].
@@ -445,7 +447,7 @@ Proof.
     destruct (sort_nodes_WF h4 g2 W5) as [g3 [E6 W6]]. rewrite E6. cbn [bind].
     destruct (closure_spec _ _ _ EC4) as [_ [HnR4 [CL4 _]]].
     exists h4, g3, (fun x => In x R4). split; [reflexivity|]. split; [exact W6|].
-    split; [|split; [|split; [|split]]].
+    split; [|split; [|split; [|split; [|split]]]].
     + intros x Hx. apply (sort_nodes_incl h4 g2 g3 W5 E6) in Hx. destruct (M5 x Hx) as [A|A]; [left|right; exact A].
       apply I1. exact A.
     + intros x Hx. destruct (R4C x Hx) as [_ Cx]. apply COPY in Cx. fold base. lia.
@@ -462,6 +464,44 @@ Proof.
       rewrite dedupe_In, remove_items_In in Hp. destruct Hp as [A _].
       apply (Q2 x Hxg) in A. destruct A as [[-> _]|[A1 _]]; [left; exact HnR4|right].
       unfold pars in A1. rewrite OLD1 in A1 by (apply Vg; exact Hxg). exact A1.
+    + split; [rewrite L4, L3, L2, L1; fold base; lia|].
+      intros r Hr Ng. fold base in Hr. rewrite O4.
+      * rewrite G3'. assert (X : memb r g1 = false).
+        { apply memb_false. intros Y. destruct (I1 r Y) as [Z _]. tauto. }
+        rewrite X. rewrite N2 by (left; exact Ng). apply OLD1. exact Hr.
+      * intros X. apply RSC in X. apply SCC in X. apply COPY in X. lia.
+Qed.
+
+Lemma update_subtree_facts : forall h g old new, WF h g -> guard_b (h, g) (OUpdSub old new) = true ->
+  exists h4 g3 (Bs : ref -> Prop), update_subtree h g old new = Ok (h4, g3) /\ WF h4 g3 /\
+    (forall x, In x g3 -> In x g \/ Bs x) /\
+    (forall x, Bs x -> length h <= x) /\
+    (forall x p, Bs x -> In p (pars h4 x) -> Bs p) /\
+    (forall x, Bs x -> ~ on_cycle h4 x) /\
+    (forall x, In x g -> In x g3 -> forall p, In p (pars h4 x) -> Bs p \/ In p (pars h x)).
+Proof.
+  intros h g old new W G.
+  destruct (update_subtree_facts_frame h g old new W G) as [h4 [g3 [Bs [A [B [C [D [E [F [H _]]]]]]]]]].
+  exists h4, g3, Bs. split; [exact A|]. split; [exact B|]. split; [exact C|]. split; [exact D|].
+  split; [exact E|]. split; [exact F|exact H].
+Qed.
+
+(* frame property: update_subtree leaves every object that is not a member of g untouched *)
+Lemma update_subtree_frame : forall h g old new h' g', update_subtree h g old new = Ok (h', g') ->
+  WF h g -> guard_b (h, g) (OUpdSub old new) = true ->
+  length h <= length h' /\ forall r, r < length h -> ~ In r g -> get h' r = get h r.
+Proof.
+  intros h g old new h' g' E W G.
+  destruct (update_subtree_facts_frame h g old new W G) as [h4 [g3 [Bs [A [_ [_ [_ [_ [_ [_ F]]]]]]]]]].
+  rewrite E in A. inversion A; subst. exact F.
+Qed.
+
+Lemma deepcopy_frame : forall h n h' c, deepcopy h n = Ok (h', c) ->
+  length h <= length h' /\ forall r, r < length h -> get h' r = get h r.
+Proof.
+  intros h n h' c E. unfold deepcopy in E. destruct (closure h n) as [R|e]; [|discriminate].
+  cbn [bind] in E. inversion E; subst. split; [rewrite app_length; lia|].
+  intros r Hr. apply get_app_l. exact Hr.
 Qed.
 
 Theorem update_subtree_WF : forall h g old new, WF h g -> guard_b (h, g) (OUpdSub old new) = true ->
